@@ -331,3 +331,6 @@ func FileWriteHook(f *os.File, p []byte) (int, error, bool) {
 	}
 	return 0, nil, false
 }
+
+// CurProc is the simulated process the calling goroutine belongs to (nil outside any).
+func CurProc() *Proc { return curProc() }
